@@ -23,7 +23,7 @@ import (
 
 type callPlan struct {
 	ID     string `json:"id"`
-	Cancel string `json:"cancel"` // none | pre | during-write | after-received | after-replied | deadline
+	Cancel string `json:"cancel"` // none | pre | during-write | at-write-end | after-received | after-replied | deadline
 	// reply | late | never | close | push-reply | reply-push | close-late (the first transmission is read and the connection
 	// closed, so that the client re-dials and re-sends inside the call; the retransmission is answered late)
 	Server string `json:"server"`
@@ -152,6 +152,19 @@ func c10Run(c c10Case) (sig string, err error) {
 		// a call whose plan is "during-write" is cancelled when the first half of its request is on the wire
 		a.WriteHook = func(p []byte) (int, func()) {
 			for id, pl := range srv.plans {
+				if pl.Cancel == "at-write-end" && (bytes.Contains(p, []byte(id+"\x00")) || bytes.HasSuffix(bytes.TrimRight(p, "\x00"), []byte(id))) {
+					id := id
+					// cancelled when all but the last byte is written: the write then completes at once, so the caller sees
+					// "write completed" and "context cancelled" at the same moment (either may win)
+					return len(p) - 1, func() {
+						cmu.Lock()
+						cf := cancels[id]
+						cmu.Unlock()
+						if cf != nil {
+							cf()
+						}
+					}
+				}
 				if pl.Cancel == "during-write" && bytes.Contains(p, []byte(id+"\x00")) || pl.Cancel == "during-write" && bytes.HasSuffix(bytes.TrimRight(p, "\x00"), []byte(id)) {
 					id := id
 					return len(p) / 2, func() {
@@ -338,7 +351,7 @@ func c10Run(c c10Case) (sig string, err error) {
 
 func TestC10OwnResponse(t *testing.T) {
 	const name = "TestC10OwnResponse"
-	rec := evid.New("C10", name, "1..4 caller goroutines sharing one client, each issuing 1..4 calls with unique identifiers; per call a cancellation plan (none, context already cancelled, cancelled while the request is half written, cancelled between send and receive once the server has read the request, "+
+	rec := evid.New("C10", name, "1..4 caller goroutines sharing one client, each issuing 1..4 calls with unique identifiers; per call a cancellation plan (none, context already cancelled, cancelled while the request is half written, cancelled at the moment its last byte is written, cancelled between send and receive once the server has read the request, "+
 		"cancelled once the server has written the reply, 15 ms deadline) and a server plan (reply at once, reply late - after the call was abandoned -, never reply, close the connection, close the connection after reading the request and answer the retransmission late, send a server-originated request before or after the reply); the send/recv window is owned by the generator through the yield-point hook; real time, event driven; "+
 		"oracle: every call returns within 30 s with an error or the response echoing its own identifier, undisturbed calls succeed; non-trivial = a call cancelled mid-exchange is followed by a later call, or >= 2 callers; distinct by case").Attach(t)
 	if rp := evid.LoadReplay(name); rp != nil {
@@ -364,20 +377,20 @@ func TestC10OwnResponse(t *testing.T) {
 			for i := 0; i < m; i++ {
 				k++
 				p := callPlan{ID: fmt.Sprintf("call-%d-%d", ci, i)}
-				p.Cancel = rapid.SampledFrom([]string{"none", "none", "none", "pre", "after-received", "after-replied", "after-replied", "deadline", "during-write"}).Draw(rt, "cancel")
+				p.Cancel = rapid.SampledFrom([]string{"none", "none", "none", "pre", "after-received", "after-replied", "after-replied", "deadline", "during-write", "at-write-end"}).Draw(rt, "cancel")
 				switch p.Cancel {
 				case "none", "pre":
 					p.Server = rapid.SampledFrom([]string{"reply", "reply", "late", "close", "push-reply", "reply-push", "close-late"}).Draw(rt, "server")
 				case "after-received":
 					p.Server = rapid.SampledFrom([]string{"late", "never", "reply", "close-late"}).Draw(rt, "server")
-				case "during-write":
+				case "during-write", "at-write-end":
 					p.Server = rapid.SampledFrom([]string{"reply", "reply", "late"}).Draw(rt, "server")
 				case "after-replied":
 					p.Server = rapid.SampledFrom([]string{"reply", "reply", "late", "close-late"}).Draw(rt, "server")
 				default:
 					p.Server = rapid.SampledFrom([]string{"late", "never", "reply", "close-late"}).Draw(rt, "server")
 				}
-				if (p.Cancel == "after-received" || p.Cancel == "after-replied" || p.Cancel == "during-write") && i < m-1 {
+				if (p.Cancel == "after-received" || p.Cancel == "after-replied" || p.Cancel == "during-write" || p.Cancel == "at-write-end") && i < m-1 {
 					nt = true
 				}
 				calls = append(calls, p)
